@@ -231,14 +231,21 @@ def geom_mode(geomfile, outfile, stride):
         found_pairs.append((c.p1, c.p2))
         return 0
 
-    todo = [ln for n, ln in enumerate(lines) if n % stride == 0] + famb
+    # rows whose line criterion is met strictly inside the step only (fly-throughs) are always run
+    mid = [ln for ln in lines if ln.strip()[2:-2].split(",")[17].strip() == "1"]
+    lines = [ln for ln in lines if ln.strip()[2:-2].split(",")[17].strip() != "1"]
+    res["fly_throughs"] = len(mid)
+    todo = [ln for n, ln in enumerate(lines) if n % stride == 0] + famb + mid
     for n, ln in enumerate(todo):
         f = ln.strip()[2:-2].split(",")
         x1, y1, z1, x2, y2, z2, vx, vy, vz, r1, r2, lx, ly, lz, gz = [int(v) for v in f[1:16]]
         code = int(f[16])
         preq, pmay, lreq, lmay = bool(code & 1), bool(code & 2), bool(code & 4), bool(code & 8)
         cfgl = [x1, y1, z1, x2, y2, z2, vx, vy, vz, r1, r2, lx, ly, lz, gz]
-        for mode in ("direct", "tree", "line", "linetree"):
+        # (the line criterion is about the straight path of the last step: the same path walked with a negative step, velocities
+        #  reversed, must give the same answer)
+        for mode, back in (("direct", 0), ("tree", 0), ("line", 0), ("linetree", 0), ("line", 1), ("linetree", 1)):
+            sgn = -1.0 if back else 1.0
             sim = rebound.Simulation()
             sim.integrator = "none"
             sim.gravity = "none"
@@ -247,11 +254,11 @@ def geom_mode(geomfile, outfile, stride):
             sim.N_ghost_x = 1
             sim.N_ghost_y = 1
             sim.N_ghost_z = gz
-            sim.dt = 1.0
-            sim.dt_last_done = 1.0
+            sim.dt = sgn
+            sim.dt_last_done = sgn
             sim.collision = mode
             sim.collision_resolve = resolver
-            sim.add(m=1.0, x=float(x1), y=float(y1), z=float(z1), vx=float(vx), vy=float(vy), vz=float(vz), r=float(r1))
+            sim.add(m=1.0, x=float(x1), y=float(y1), z=float(z1), vx=sgn * float(vx), vy=sgn * float(vy), vz=sgn * float(vz), r=float(r1))
             sim.add(m=1.0, x=float(x2), y=float(y2), z=float(z2), r=float(r2))
             del found_pairs[:]
             clibrebound.reb_collision_search(ctypes.byref(sim))
@@ -264,13 +271,85 @@ def geom_mode(geomfile, outfile, stride):
                 res["boundary"] += 1
             if (req and not rep) or (rep and not may):
                 if len(res["violations"]) < 20:
-                    res["violations"].append({"mode": mode, "cfg": cfgl, "required": req, "may": may, "reported": rep})
+                    res["violations"].append({"mode": mode + (" (negative step)" if back else ""), "cfg": cfgl, "required": req, "may": may, "reported": rep})
             if len(res["samples"]) < 3 and req:
                 res["samples"].append({"mode": mode, "cfg": cfgl, "required": req, "reported": rep})
     json.dump(res, open(outfile, "w"))
 
 
+def cluster_mode(outfile, seed, ntrials):
+    """polydisperse crowds (sampled): isolated overlapping, approaching pairs of very unequal radii planted among small close
+    neighbours (so that both sit in small tree cells), inserted in ascending, descending and random radius order; every search
+    mode must hand every planted pair to the resolver and nothing else"""
+    import random
+    rng = random.Random(seed)
+    res = {"trials": 0, "pairs": 0, "violations": []}
+    found = []
+
+    def resolver(sp, c):
+        found.append((c.p1, c.p2))
+        return 0
+    for trial in range(ntrials):
+        parts = []      # (x, y, z, vx, vy, vz, r, tag)
+        centres = []
+        while len(centres) < 7:
+            c = (rng.uniform(-24, 24), rng.uniform(-24, 24), rng.uniform(-24, 24))
+            if all(sum((a - b) ** 2 for a, b in zip(c, d)) > 12.0 ** 2 for d in centres):
+                centres.append(c)
+        planted = []
+        for k, c in enumerate(centres):
+            ra = 10 ** rng.uniform(-1.5, -0.3)
+            rb = 10 ** rng.uniform(-0.2, 0.3)
+            u = [rng.gauss(0, 1) for _ in range(3)]
+            nu = math.sqrt(sum(x * x for x in u))
+            u = [x / nu for x in u]
+            sep = ra + rb - 0.2 * ra                           # overlap depth a fifth of the small radius
+            a = (c[0], c[1], c[2], 0.3 * u[0], 0.3 * u[1], 0.3 * u[2], ra, ("a", k))                     # moving towards b
+            b = (c[0] + sep * u[0], c[1] + sep * u[1], c[2] + sep * u[2], 0.0, 0.0, 0.0, rb, ("b", k))
+            parts += [a, b]
+            # a point-like companion deep inside each of them, moving away from its centre (overlapping but receding: not a collision
+            # for the point criterion): makes the tree cells around both much smaller than their radii
+            ea, eb = 0.03 * ra, 0.03 * rb
+            parts.append((a[0] - ea * u[0], a[1] - ea * u[1], a[2] - ea * u[2], a[3] - 0.2 * u[0], a[4] - 0.2 * u[1], a[5] - 0.2 * u[2], 0.0, ("n", k)))
+            parts.append((b[0] + eb * u[0], b[1] + eb * u[1], b[2] + eb * u[2], 0.2 * u[0], 0.2 * u[1], 0.2 * u[2], 0.0, ("n", k)))
+        for order in ("ascending", "descending", "random"):
+            ps = sorted(parts, key=lambda t: t[6]) if order == "ascending" else sorted(parts, key=lambda t: -t[6]) if order == "descending" else rng.sample(parts, len(parts))
+            want = set()
+            for k in range(len(centres)):
+                ia = next(i for i, t in enumerate(ps) if t[7] == ("a", k))
+                ib = next(i for i, t in enumerate(ps) if t[7] == ("b", k))
+                want.add(frozenset((ia, ib)))
+            for mode in ("direct", "tree", "line", "linetree"):
+                sim = rebound.Simulation()
+                sim.integrator = "none"
+                sim.gravity = "none"
+                sim.configure_box(64.0)
+                sim.dt = 0.01
+                sim.dt_last_done = 0.01
+                sim.collision = mode
+                sim.collision_resolve = resolver
+                for t in ps:
+                    sim.add(m=1.0, x=t[0], y=t[1], z=t[2], vx=t[3], vy=t[4], vz=t[5], r=t[6])
+                del found[:]
+                clibrebound.reb_collision_search(ctypes.byref(sim))
+                got = {frozenset(p) for p in found}
+                res["trials"] += 1
+                res["pairs"] += len(want)
+                if mode in ("line", "linetree"):
+                    got = got & want if want <= got else got       # (the companions' paths overlap their hosts: only the planted pairs are demanded of the line searches)
+                if got != want and len(res["violations"]) < 10:
+                    miss = sorted(tuple(sorted(x)) for x in want - got)
+                    extra = sorted(tuple(sorted(x)) for x in got - want)
+                    res["violations"].append({"mode": mode, "order": order, "missed": miss[:4], "spurious": extra[:4],
+                                              "radii": [[ps[i][6] for i in m] for m in miss[:4]], "seed": seed, "trial": trial})
+                del sim
+    json.dump(res, open(outfile, "w"))
+
+
 if __name__ == "__main__":
+    if sys.argv[1] == "cluster":
+        cluster_mode(sys.argv[2], int(sys.argv[3]), int(sys.argv[4]))
+        sys.exit(0)
     if sys.argv[1] == "loop":
         loop_mode(sys.argv[2], sys.argv[3], int(sys.argv[4]), int(sys.argv[5]))
     else:
